@@ -36,7 +36,24 @@ def units(tier):
     n = len(_terms(tier))
     step = 10 if tier == "quick" else 12
     return ([("pairs", tier, i, min(n, i + step)) for i in range(0, n, step)] + [("laws", tier, i, min(n, i + 40)) for i in range(0, n, 40)]
-            + [("typeddict", tier, 0, 0)] + [("protocol", tier, k, 0) for k in range(4)])
+            + [("typeddict", tier, 0, 0)] + [("protocol", tier, k, 0) for k in range(4)]
+            + [("source", tier, i, min(len(_src_terms(tier)), i + 4)) for i in range(0, len(_src_terms(tier)), 4)])
+
+
+def _src_terms(tier):
+    """terms for the second route (`def f(b: B): y: A = b` in checked source): all depth-1 terms and one representative per depth-2 constructor"""
+    ts = [t for t in T.BASE if t not in ("tuple", "list", "dict", "type")]
+    for t in T.depth2():
+        if "*tuple" in t or t.startswith("List["):
+            continue
+        args = re.findall(r"\b(int|str|None|float|bool|A|E|Literal\[1\])\b", t)
+        if tier == "thorough" or all(a in ("int", "str", "None") for a in args):
+            ts.append(t)
+    out = []
+    for t in ts:
+        if t not in out:
+            out.append(t)
+    return out
 
 
 _CACHE = {}
@@ -214,6 +231,58 @@ def _laws(res, tier, lo, hi):
                                       "%s accepts %s but (%s | %s) does not" % (a, b1, a, b2))
 
 
+def _source(res, tier, lo, hi, only_b=None):
+    """second route: the same pairs written as annotations in checked source"""
+    from pa.run import check
+    from ref.member import Unsupported, member
+    from ref.values import value_of
+    from pa.run import get_checker
+    ck = get_checker()
+    ns = U.prelude_ns()
+    objs = [eval(x, ns) for x in U.universe("quick")]
+    usrc = U.universe("quick")
+    terms = _src_terms(tier)
+
+    def ext(t):
+        rt = eval(t, ns)
+        e = u = 0
+        for i, o in enumerate(objs):
+            try:
+                if member(o, rt):
+                    e |= 1 << i
+            except Unsupported:
+                u |= 1 << i
+        return e, u
+    exts = {t: ext(t) for t in terms}
+    for ai in range(lo, hi):
+        a = terms[ai]
+        bs = [b for b in terms if only_b is None or b == only_b]
+        src = U.PRELUDE + "".join("def f%d(b: %s) -> None:\n    y: %s = b\n" % (k, b, a) for k, b in enumerate(bs))
+        first = U.PRELUDE.count("\n") + 2
+        fails = check(src)
+        res.transitions += 1
+        by = {}
+        for f in fails:
+            by.setdefault(f.get("lineno"), []).append(f["code"].name)
+        va = value_of(eval(a, ns))
+        for k, b in enumerate(bs):
+            res.states += 1
+            res.validated += 1
+            codes = by.get(first + 2 * k, [])
+            acc_src = "incompatible_assignment" not in codes
+            acc_api = _accepts(va, value_of(eval(b, ns)), ck)
+            order = 3 * 10 ** 9 + ai * len(terms) + k
+            case = {"src": [a, b], "order": order}
+            res.outcomes["source:accepted=%s/api=%s" % (acc_src, acc_api)] += 1
+            if acc_src != acc_api:
+                res.violation({"law": "routes-disagree", "A": _skel(a), "B": _skel(b), "source": "accepts" if acc_src else "rejects"}, case,
+                              "`def f(b: %s): y: %s = b` is %s in checked source, but Value.can_assign on the same types %s" % (b, a, "accepted" if acc_src else "diagnosed", "accepts" if acc_api else "rejects"))
+            witness = exts[b][0] & ~exts[a][0] & ~exts[a][1] & ~exts[b][1]
+            if acc_src and witness and not _lenient(a, b):
+                res.violation({"law": "soundness", "A": _skel(a), "B": _skel(b), "route": "source"}, case,
+                              "`y: %s = b` with b: %s is accepted, yet %s belongs to %s and not to %s" % (a, b, _first_obj(witness, usrc), b, a))
+
+
 # ---- TypedDict family: keys a, b with every required/readonly/type combination ------------------
 
 def td_family():
@@ -354,6 +423,8 @@ def run_unit(unit):
         _laws(res, tier, lo, hi)
     elif kind == "typeddict":
         _typeddict(res, tier)
+    elif kind == "source":
+        _source(res, tier, lo, hi)
     else:
         _protocol(res, tier, lo)
     return res
@@ -363,6 +434,14 @@ def replay(case):
     res = UnitResult()
     if "td" in case:
         _typeddict(res, "quick", only=case["td"])
+        return list(res.viol.values())
+    if "src" in case:
+        for tier in ("quick", "thorough"):
+            ts = _src_terms(tier)
+            if case["src"][0] in ts and case["src"][1] in ts:
+                ai = ts.index(case["src"][0])
+                _source(res, tier, ai, ai + 1, only_b=case["src"][1])
+                break
         return list(res.viol.values())
     if "proto" in case:
         _protocol(res, "quick", case["order_kind"])
